@@ -150,10 +150,19 @@ def _limits(mem_gb=3):
     return f
 
 
-def run_server(garden, data, tmpdir, timeout=20):
+def run_server(garden, data, tmpdir, timeout=30):
     """Start `garden lsp`, write `data`, close stdin, wait.  Returns dict(rc, msgs, problem, stderr, timeout).
+    A run that exceeds the time limit is repeated once with a ten times longer limit before it is called a
+    hang (on a loaded machine a healthy run can take many seconds).
     The server writes its built-in files below $TMPDIR/garden-lsp-<pid> and does not remove them when it
     leaves through process::exit, so TMPDIR points into the scratch area and is cleaned here."""
+    r = _run_server_once(garden, data, tmpdir, timeout)
+    if r["timeout"]:
+        r = _run_server_once(garden, data, tmpdir, timeout * 10)
+    return r
+
+
+def _run_server_once(garden, data, tmpdir, timeout):
     env = dict(os.environ)
     env["TMPDIR"] = tmpdir
     env["GARDEN_LOG"] = "error"
@@ -173,8 +182,16 @@ def run_server(garden, data, tmpdir, timeout=20):
                 timeout=timed_out)
 
 
-def run_reftest(garden, messages, path, timeout=20):
-    """Feed single-line JSON messages to `garden reftest-lsp`."""
+def run_reftest(garden, messages, path, timeout=30):
+    """Feed single-line JSON messages to `garden reftest-lsp` (a timed-out run is repeated once with a ten
+    times longer limit)."""
+    r = _run_reftest_once(garden, messages, path, timeout)
+    if r["timeout"]:
+        r = _run_reftest_once(garden, messages, path, timeout * 10)
+    return r
+
+
+def _run_reftest_once(garden, messages, path, timeout):
     with open(path, "w", encoding="utf-8") as f:
         for m in messages:
             f.write(json.dumps(m, ensure_ascii=False) + "\n")
@@ -536,7 +553,8 @@ class Gen:
                         with_(lambda q: q["position"].__setitem__("line", 1.5)),
                         with_(lambda q: q["position"].__setitem__("line", "3")),
                         with_(lambda q: q["position"].__setitem__("character", None)),
-                        with_(lambda q: q.__setitem__("position", [0, 0])),
+                        # not `"position": [0, 0]`: serde accepts the positional form of a struct
+                        with_(lambda q: q.__setitem__("position", "0:0")),
                         with_(lambda q: q.__setitem__("workDoneToken", {"a": 1}))]
         if shape == "refs":
             choices += [with_(lambda q: q.pop("context")), with_(lambda q: q.__setitem__("context", {})),
@@ -603,6 +621,15 @@ class Gen:
     # ---- one message
     def step(self):
         rng = self.rng
+        if getattr(self, "just_closed", None) and rng.random() < 0.6:
+            # a request on the document that was just closed: the store must have forgotten it
+            uri, self.just_closed = self.just_closed, None
+            if uri_info(uri)[1] not in self.open:
+                meth = rng.choice(["textDocument/formatting", "textDocument/documentSymbol",
+                                   "textDocument/hover", "textDocument/completion"])
+                return self.msg({"jsonrpc": "2.0", "id": self.new_id(), "method": meth,
+                                 "params": self.good_params(REQUESTS[meth][0], uri, None)}, ("g", uri),
+                                "request-after-close")
         r = rng.random()
         if r < 0.16:                                      # didOpen
             uri = rng.choice(GOOD_URIS + (ALIAS_URIS if rng.random() < 0.2 else []))
@@ -624,6 +651,7 @@ class Gen:
         if r < 0.29 and self.open:                        # didClose
             uri, _ = self.pick_doc(True)
             self.open.pop(uri_info(uri)[1], None)
+            self.just_closed = uri
             return self.msg({"jsonrpc": "2.0", "method": "textDocument/didClose",
                              "params": {"textDocument": {"uri": uri}}}, "a", "didClose")
         if r < 0.33:                                      # malformed / unusable document sync
@@ -710,13 +738,21 @@ class Gen:
 
     def session(self, maxlen):
         rng = self.rng
-        n = rng.randint(2, maxlen)
+        n = rng.randint(4, maxlen)
         ms = []
         if rng.random() < 0.75:
             ms.append(self.msg({"jsonrpc": "2.0", "id": self.new_id(), "method": "initialize",
                                 "params": self.good_params("init", None, None)}, ("g", None), "initialize"))
             if rng.random() < 0.8:
                 ms.append(self.msg({"jsonrpc": "2.0", "method": "initialized", "params": {}}, "a", "initialized"))
+        if rng.random() < 0.7:
+            # most clients open a document right away
+            uri = rng.choice(GOOD_URIS)
+            t = self.text()
+            self.open[uri_info(uri)[1]] = t
+            ms.append(self.msg({"jsonrpc": "2.0", "method": "textDocument/didOpen",
+                                "params": {"textDocument": {"uri": uri, "languageId": "garden", "version": 1,
+                                                            "text": t}}}, "a", "didOpen"))
         ending = rng.random()
         tail = []
         if ending < 0.30:
